@@ -707,6 +707,8 @@ def _check_roundtrip(prog: Program, res: Result, sec_tabs):
                 for karg, kval in bound.items():
                     if isinstance(kval, ast.Subscript) and isinstance(kval.slice, ast.Constant):
                         out[karg] = (ast.unparse(kval.value), kval.slice.value)
+                    elif isinstance(kval, ast.Call) and isinstance(kval.func, ast.Attribute) and kval.func.attr == "get" and kval.args and isinstance(kval.args[0], ast.Constant):
+                        out[karg] = (ast.unparse(kval.func.value), kval.args[0].value)  # section.get("key") written at the call
                     elif isinstance(kval, ast.Name):
                         # local bound from .get
                         for s in ast.walk(lfi.node):
@@ -1017,7 +1019,7 @@ def _check_roundtrip(prog: Program, res: Result, sec_tabs):
                               f"the optional key '{key}' is written under {[ast.unparse(t_)[:50] for t_, _ in guards]}, which is not 'its own attribute is not None': in other states the value is lost on the way through the file")
     res.count("optional_to_input_keys", n_opt)
     res.count("roundtrip_keys", n_rt)
-    res.floor("roundtrip_keys", 60)
+    res.floor("roundtrip_keys", 50)
 
 
 # ---------------------------------------------------------------------------
@@ -1030,7 +1032,12 @@ def _check_enums(prog: Program, res: Result, wfi, lfi):
 
     def dict_key_members(fi, enum):
         out = set()
-        for n in ast.walk(fi.node):
+        # dictionaries written in the function, and module-level dictionaries the function refers to by name
+        mod_consts = prog.modules[fi.module].constants
+        local_stores = {x.id for x in ast.walk(fi.node) if isinstance(x, ast.Name) and isinstance(x.ctx, ast.Store)}
+        nodes = list(ast.walk(fi.node)) + [y for x in ast.walk(fi.node) if isinstance(x, ast.Name) and isinstance(x.ctx, ast.Load) and x.id in mod_consts and x.id not in local_stores
+                                           for y in ast.walk(mod_consts[x.id])]
+        for n in nodes:
             if isinstance(n, ast.Dict):
                 for k in n.keys:
                     c = attr_chain(k) if isinstance(k, ast.Attribute) else None
@@ -1092,7 +1099,9 @@ def _check_enums(prog: Program, res: Result, wfi, lfi):
                       f"the pipe schemas allow {sorted(pipe_allowed)} but BHPipeType has {sorted(pipe)}")
     # each geometry class writes its own method constant, and the schema the validator maps it to expects it
     vmap = {}
-    for n in ast.walk(vg.node):
+    from ..model import visible_nodes
+
+    for n in visible_nodes(prog, vg):
         if isinstance(n, ast.Dict):
             for k, v in zip(n.keys, n.values):
                 c = attr_chain(k) if isinstance(k, ast.Attribute) else None
